@@ -68,5 +68,27 @@ theorem commensurate_refuse (C : Ctx K) (hs : UeqSound C.ueq) (rule : Rule) (f :
   · have : (rule == Rule.comparison) = false := by simpa using hr
     simp [this]
 
+/-- the conversion loop of `_coerce_iterable_units` fails on the first item of another dimension -/
+theorem coerceItems_refuses (ff : UnitR K) (items : List (Option (UnitR K)))
+    (hall : ∀ o ∈ items, o ≠ none)
+    (hex : ∃ v, some v ∈ items ∧ v.v.dim ≠ ff.v.dim) :
+    coerceItems ff items = .error .IterableUnitCoercionError := by
+  induction items with
+  | nil => obtain ⟨v, hv, _⟩ := hex; cases hv
+  | cons o rest ih =>
+    cases o with
+    | none => exact absurd rfl (hall none List.mem_cons_self)
+    | some u =>
+      simp only [coerceItems]
+      by_cases hu : u.v.dim = ff.v.dim
+      · simp only [hu, bne_self_eq_false, Bool.false_eq_true, if_false]
+        apply ih
+        · intro o ho; exact hall o (List.mem_cons_of_mem _ ho)
+        · obtain ⟨v, hv, hd⟩ := hex
+          cases hv with
+          | head => exact absurd hu hd
+          | tail _ h => exact ⟨v, h, hd⟩
+      · simp [dim_bne_of_ne hu]
+
 end
 end Unyt.C01
